@@ -138,6 +138,20 @@ CHECKS = {
             'views; parsing of the forms 0b / b / plain / 0x / with binary point by constructor, call, set_val, from_bin method and function, in '
             'value mode (n_word<=53) and raw mode (all widths), as list of str, exactly as rendered for 2-d, as 2-d ndarray and nested lists.',
             'Trusted: Python string formatting of integers.', 'DESIGN.md section 4 C11'),
+    'C18': (TECH_E1,
+            'No explored wide store, rendering or bitwise operation loses a bit: n_word in {62,63,64,65,66,72,96,127,128,129,200,256} x n_frac '
+            '{0,1,n/2,n-1,n} x signed/unsigned x {saturate,wrap} x ~330 integer codes per format (bounds and neighbours, multiples of the modulus '
+            '+-1, all-ones words and powers of two up to 4x the word length, walking bits, seed letters) by raw constructor / set_val / indexed, '
+            'as integer value, as binary and hex string in raw mode, as object array / list of ints / list of strings; bin(), hex(), ~ & | ^ on '
+            'arrays and scalars; extended_prec == (n_word>=64) and Python-int storage in every state of store -> reset -> resize -> store -> reset.',
+            'Trusted: Python integers. The inaccuracy flag is not judged at these widths (not claimed).', 'DESIGN.md section 4 C18'),
+    'C19': (TECH_E1,
+            'No explored + - * with optimal sizing loses exactness at the 53/63/64-bit transitions: all ordered pairs of operand words from the '
+            'boundary list {2,8,26,27,31,32,33,52,53,54,62,63,64,65,70} (thorough: 2..70) x n_frac {0,n/2,n} (thorough 5 values) x 4 signedness '
+            'mixes x a 10-14 letter code alphabet squared (broadcast), scalars and vectors, second-level results up to 256 bits; Python ints '
+            '+-(2^e+d) up to 2^1000 and all-ones words stored into 64 formats x 4 (thorough 10) mode pairs x 4 routes with C01 codes and flags.',
+            'Trusted: exact integer arithmetic and the growth rules of C07. An exception inside the domain counts as a violation.',
+            'DESIGN.md section 4 C19'),
 }
 
 NOT_YET = {}
